@@ -157,6 +157,36 @@ theorem std_route_record (vMaj vMin : UInt8) (h : Hello) (hw : WellFormed h) (hf
   rw [Lemmas.C10.firstMessage_record vMaj vMin h hf rest]
   exact std_encode h hw
 
+/-- **Truncated input: fabio and a standard server agree at every cut.** For a well-formed hello and every strict
+prefix of its encoding, either both refuse it, or the cut is the one behind the compression methods and both read
+it as a complete hello without extensions (name `""`) — the exception of `Props.C10.truncation_exception` is not
+a disagreement with the TLS stack. -/
+theorem truncation_agreement (h : Hello) (hw : WellFormed h) (k : Nat) (hk : k < (encode h).length) :
+    (stdServerName 32 ((encode h).take k) = none ∧ readServerName ((encode h).take k) = .ok ([], false)) ∨
+    (k = cutAfterCompression h ∧ stdServerName 32 ((encode h).take k) = some [] ∧
+      readServerName ((encode h).take k) = .ok ([], true)) := by
+  by_cases hne : k = cutAfterCompression h
+  · right
+    subst hne
+    cases he : h.extensions with
+    | none =>
+      -- without an extension block the cut is the whole message: not a strict prefix
+      exfalso
+      rw [Lemmas.C10.cut_eq, Lemmas.C10.encode_split, he] at hk
+      simp only [List.length_append, encExtBlock, List.length_nil] at hk
+      omega
+    | some es =>
+      exact ⟨rfl, Lemmas.C10.std_cut h hw, (Props.C10.truncation_exception h hw es he).2⟩
+  · left
+    have hr := Props.C10.truncation_rejected_partial h hw k hk hne
+    refine ⟨?_, hr⟩
+    cases hs : stdServerName 32 ((encode h).take k) with
+    | none => rfl
+    | some n =>
+      have := std_accepts_agree _ _ hs
+      rw [hr] at this
+      cases this
+
 /-! ### `ServeTCP` up to the dial: what is looked up and what is replayed -/
 
 /-- `ServeTCP` never reaches a panic point before it dials, whatever the client sends. -/
